@@ -1,0 +1,66 @@
+//! Verification hooks for the validator network (see `crate::verif`).
+#![allow(missing_docs, clippy::missing_docs_in_private_items, unreachable_pub)]
+use zksync_concurrency::ctx;
+use zksync_consensus_roles::{node, validator};
+
+use super::handshake;
+use crate::verif::TcpNoise;
+
+pub fn decode_handshake(bytes: &[u8]) -> anyhow::Result<Vec<u8>> {
+    Ok(zksync_protobuf::encode(&zksync_protobuf::decode::<
+        handshake::Handshake,
+    >(bytes)?))
+}
+
+fn err_name(e: &handshake::Error) -> String {
+    match e {
+        handshake::Error::GenesisMismatch => "GenesisMismatch",
+        handshake::Error::SessionIdMismatch => "SessionIdMismatch",
+        handshake::Error::PeerMismatch => "PeerMismatch",
+        handshake::Error::Signature(_) => "Signature",
+        handshake::Error::Stream(_) => "Stream",
+    }
+    .to_string()
+}
+
+pub async fn handshake_outbound(
+    ctx: &ctx::Ctx,
+    me: &validator::SecretKey,
+    genesis: validator::GenesisHash,
+    stream: &mut TcpNoise,
+    peer: &validator::PublicKey,
+) -> Result<(), String> {
+    handshake::outbound(ctx, me, genesis, &mut stream.0, peer)
+        .await
+        .map_err(|e| err_name(&e))
+}
+
+pub async fn handshake_inbound(
+    ctx: &ctx::Ctx,
+    me: &validator::SecretKey,
+    genesis: validator::GenesisHash,
+    stream: &mut TcpNoise,
+) -> Result<validator::PublicKey, String> {
+    handshake::inbound(ctx, me, genesis, &mut stream.0)
+        .await
+        .map_err(|e| err_name(&e))
+}
+
+pub async fn send_handshake(
+    ctx: &ctx::Ctx,
+    stream: &mut TcpNoise,
+    session_id: validator::Signed<node::SessionId>,
+    genesis: validator::GenesisHash,
+) -> ctx::Result<()> {
+    stream
+        .send_proto(ctx, &handshake::Handshake { session_id, genesis })
+        .await
+}
+
+pub async fn recv_handshake(
+    ctx: &ctx::Ctx,
+    stream: &mut TcpNoise,
+) -> ctx::Result<(validator::Signed<node::SessionId>, validator::GenesisHash)> {
+    let h: handshake::Handshake = stream.recv_proto(ctx, 10 * zksync_protobuf::kB).await?;
+    Ok((h.session_id, h.genesis))
+}
